@@ -34,42 +34,75 @@ from easynetwork.serializers.wrapper.compressor import BZ2CompressorSerializer, 
 NEWLINES = {"LF": b"\n", "CR": b"\r", "CRLF": b"\r\n"}
 
 
+def _held(data: Any, hold: str | None) -> Any:
+    """what a harness `deserialize(data)` makes of its argument (spec key `hold`):
+        None    a private copy (the historical behaviour of the harness serializers)
+        "arg"   the argument object ITSELF is the packet ("the packet is the raw record"): if the library hands over a view
+                of its receive buffer instead of the documented `bytes`, the packet changes under the application's feet
+                when later data arrives (seen by the retained-packet re-check of streamdrive.Retain)
+        "text"  uses the `bytes` API of the documented argument type (`data.decode`), as a text-record subclass would"""
+    if hold == "arg":
+        return data
+    if hold == "text":
+        return data.decode("latin-1").encode("latin-1")
+    return bytes(data)
+
+
 class RawAutoSep(AutoSeparatedPacketSerializer[bytes, bytes]):
     """harness subclass of the public base class: packets are raw byte strings; payloads starting with
     0xff are *undecodable* (DeserializeError) so that malformed-but-well-delimited frames exist"""
 
+    def __init__(self, *args: Any, hold: str | None = None, **kwargs: Any) -> None:
+        super().__init__(*args, **kwargs)
+        self.hold = hold
+
     def serialize(self, packet: bytes) -> bytes:
         return bytes(packet)
 
     def deserialize(self, data: bytes) -> bytes:
-        data = bytes(data)
         if data[:1] == b"\xff":
             raise DeserializeError("undecodable payload (starts with 0xff)")
-        return data
+        return _held(data, self.hold)
 
 
 class RawFixed(FixedSizePacketSerializer[bytes, bytes]):
+    def __init__(self, *args: Any, hold: str | None = None, **kwargs: Any) -> None:
+        super().__init__(*args, **kwargs)
+        self.hold = hold
+
     def serialize(self, packet: bytes) -> bytes:
         return bytes(packet)
 
     def deserialize(self, data: bytes) -> bytes:
-        data = bytes(data)
         if len(data) != self.packet_size:
             raise DeserializeError("bad size")
         if data[:1] == b"\xff":
             raise DeserializeError("undecodable payload (starts with 0xff)")
-        return data
+        return _held(data, self.hold)
 
 
 class ToyFileError(Exception):
     pass
 
 
+# `expected_load_error` configurations of the file toys (spec key `expected`).  The loader only ever raises ToyFileError (or
+# EOFError); the wide ones are what a subclass wrapping an API with an open-ended error set declares (the library's own
+# MessagePackSerializer passes `Exception`), and they also cover the library's own DeserializeError / LimitOverrunError.
+EXPECTED_LOAD_ERRORS: dict[str, Any] = {
+    "toy": ToyFileError,
+    "exception": Exception,
+    "tuple": (ValueError, Exception),
+    "narrowtuple": (KeyError, ToyFileError, ValueError),
+    "deser": (ToyFileError, DeserializeError),
+}
+FILE_TOYS = ("filetoy", "filepeek", "fileahead")
+
+
 class ToyFile(FileBasedPacketSerializer[bytes, bytes]):
     """length-prefixed toy file format: 1 byte n (0..200), then n bytes. n > 200 is a format error."""
 
-    def __init__(self, limit: int) -> None:
-        super().__init__(expected_load_error=ToyFileError, limit=limit)
+    def __init__(self, limit: int, expected: str = "toy", debug: bool = False) -> None:
+        super().__init__(expected_load_error=EXPECTED_LOAD_ERRORS[expected], limit=limit, debug=debug)
 
     def dump_to_file(self, packet: bytes, file: io.IOBase) -> None:
         assert len(packet) <= 200
@@ -108,39 +141,63 @@ class PeekFile(ToyFile):
         return file.read(n)
 
 
+class AheadFile(ToyFile):
+    """same format as ToyFile, but the loader reads EVERYTHING available first (as decoders with an internal read-ahead
+    buffer do), works on that, and then seeks back to the end of what it used: the file position moves forwards and
+    backwards during one load.  After a format error the position is just behind the bad header byte, as for ToyFile."""
+
+    def load_from_file(self, file: io.IOBase) -> bytes:
+        start = file.tell()
+        data = file.read()
+        if not data:
+            raise EOFError
+        n = data[0]
+        if n > 200:
+            file.seek(start + 1)
+            raise ToyFileError(f"bad length byte {n}")
+        if len(data) < 1 + n:
+            raise EOFError          # (position left at the end, like ToyFile)
+        file.seek(start + 1 + n)
+        return data[1:1 + n]
+
+
 Point = collections.namedtuple("Point", ["x", "y", "name"])
 
 
 def build(spec: dict) -> Any:
+    """every kind takes the optional key `debug` (the serializers' `debug=True` mode: error reports carry `error_info`)"""
     k = spec["k"]
+    dbg = bool(spec.get("debug", False))
     if k == "line":
         return StringLineSerializer(spec["newline"], encoding=spec.get("encoding", "ascii"),
-                                    limit=spec["limit"], keep_end=spec.get("keep_end", False))
+                                    limit=spec["limit"], keep_end=spec.get("keep_end", False), debug=dbg)
     if k == "json":
-        return JSONSerializer(limit=spec["limit"], use_lines=spec.get("use_lines", True))
+        return JSONSerializer(limit=spec["limit"], use_lines=spec.get("use_lines", True), debug=dbg)
     if k == "struct":
-        return StructSerializer(spec["format"])
+        return StructSerializer(spec["format"], debug=dbg)
     if k == "ntstruct":
-        return NamedTupleStructSerializer(Point, {"x": "i", "y": "H", "name": "6s"}, format_endianness="!")
+        return NamedTupleStructSerializer(Point, {"x": "i", "y": "H", "name": "6s"}, format_endianness="!", debug=dbg)
     if k == "b64":
         return Base64EncoderSerializer(build(spec["inner"]), alphabet=spec.get("alphabet", "urlsafe"),
                                        checksum=spec.get("checksum", False),
-                                       separator=bytes.fromhex(spec.get("separator", "0d0a")), limit=spec["limit"])
+                                       separator=bytes.fromhex(spec.get("separator", "0d0a")), limit=spec["limit"], debug=dbg)
     if k == "zlib":
-        return ZlibCompressorSerializer(build(spec["inner"]), compress_level=spec.get("level"))
+        return ZlibCompressorSerializer(build(spec["inner"]), compress_level=spec.get("level"), debug=dbg)
     if k == "bz2":
-        return BZ2CompressorSerializer(build(spec["inner"]), compress_level=spec.get("level"))
+        return BZ2CompressorSerializer(build(spec["inner"]), compress_level=spec.get("level"), debug=dbg)
     if k == "autosep":
         return RawAutoSep(bytes.fromhex(spec["sep"]), limit=spec["limit"],
-                          incremental_serialize_check_separator=spec.get("check", True))
+                          incremental_serialize_check_separator=spec.get("check", True), debug=dbg, hold=spec.get("hold"))
     if k == "fixed":
-        return RawFixed(spec["size"])
+        return RawFixed(spec["size"], debug=dbg, hold=spec.get("hold"))
     if k == "filetoy":
-        return ToyFile(spec["limit"])
+        return ToyFile(spec["limit"], spec.get("expected", "toy"), dbg)
     if k == "filepeek":
-        return PeekFile(spec["limit"])
+        return PeekFile(spec["limit"], spec.get("expected", "toy"), dbg)
+    if k == "fileahead":
+        return AheadFile(spec["limit"], spec.get("expected", "toy"), dbg)
     if k == "pickle":
-        return PickleSerializer()
+        return PickleSerializer(debug=dbg)
     if k == "stapled":
         return StapledIncrementalPacketSerializer(build(spec["sent"]), build(spec["received"]))
     if k == "stapledbuf":
@@ -343,7 +400,7 @@ def gen_packet(rng, spec: dict, maxlen: int = 12) -> Any:
     if k == "fixed":
         p = bytes(rng.randrange(0, 255) for _ in range(spec["size"]))
         return p if p[:1] != b"\xff" else b"a" + p[1:]
-    if k in ("filetoy", "filepeek"):
+    if k in FILE_TOYS:
         return bytes(rng.randrange(256) for _ in range(rng.randint(0, maxlen)))
     if k == "pickle":
         return rng.choice([1, "a", [1, 2], {"k": (1, 2)}, None, b"xyz"])
@@ -353,19 +410,43 @@ def gen_packet(rng, spec: dict, maxlen: int = 12) -> Any:
 def expected_received(spec: dict, packet: Any) -> Any:
     """what the receive side should return for a sent packet (identity but for representation changes)"""
     r = recv_spec(spec)
-    if r["k"] in ("autosep", "fixed", "filetoy", "filepeek"):
+    if r["k"] in ("autosep", "fixed") + FILE_TOYS:
         return bytes(packet)
     if r["k"] == "struct":
         return tuple(packet)
     return packet
 
 
-def gen_spec(rng, *, limits=(8, 16, 64, 65536), allow=None) -> dict:
-    """a random serializer configuration (receive and send side identical)"""
+# separators: 1 to 4 bytes; self-overlapping ones (7c7c, 616162, 2d2d3e: first byte repeated; 616261, 0d0a0d: first byte = last
+# byte) and ones made of distinct bytes (3c7c3e "<|>", 0d0a2e, 61626364): for the latter a terminator cut after its
+# last-but-one byte leaves a buffer that ends neither with the separator's first byte nor with a repeated byte
+AUTOSEP_SEPS = ["0a", "0d0a", "7c7c", "616162", "2d2d3e", "00", "3c7c3e", "616261", "0d0a2e", "61626364", "0d0a0d0a", "3c2d2d3e"]
+B64_SEPS = ["0d0a", "0a", "7c", "2323", "3c7c3e", "0d0a2e", "2e2e2e", "0d0a0d0a"]
+EXPECTED_KEYS = ["toy", "toy", "exception", "tuple", "narrowtuple", "deser"]
+
+
+def gen_spec(rng, *, limits=(8, 16, 64, 65536), allow=None, rich: bool = False) -> dict:
+    """a random serializer configuration (receive and send side identical).
+    rich=False: the historical configuration space and random stream (other checks, e.g. C15, depend on it).
+    rich=True : adds debug=True variants of everything, packets that keep their deserialize() argument (`hold`), separators
+                of 3 and 4 bytes, Base64 with 3/4-byte separators, file toys with wide `expected_load_error` and with a
+                read-ahead loader, and the non-buffered composite (StapledIncrementalPacketSerializer)."""
+    if not rich:
+        return _gen_spec(rng, rng.choice(allow or ["line", "line", "json", "jsonraw", "struct", "ntstruct", "b64", "zlib", "bz2",
+                                                   "autosep", "autosep", "fixed", "filetoy", "filepeek", "stapledbuf"]),
+                         rng.choice(limits), limits, False)
     kinds = allow or ["line", "line", "json", "jsonraw", "struct", "ntstruct", "b64", "zlib", "bz2",
-                      "autosep", "autosep", "fixed", "filetoy", "filepeek", "stapledbuf"]
+                      "autosep", "autosep", "fixed", "filetoy", "filepeek", "fileahead", "stapledbuf", "stapled"]
     k = rng.choice(kinds)
     lim = rng.choice(limits)
+    spec = _gen_spec(rng, k, lim, limits, True)
+    # debug=True variants of everything (error reports then carry error_info; the framing must not change)
+    if spec["k"] not in ("stapled", "stapledbuf") and rng.random() < 0.3:
+        spec["debug"] = True
+    return spec
+
+
+def _gen_spec(rng, k: str, lim: int, limits, rich: bool) -> dict:
     if k == "line":
         return {"k": "line", "newline": rng.choice(["LF", "CR", "CRLF"]), "keep_end": rng.random() < 0.4,
                 "encoding": rng.choice(["ascii", "utf-8"]), "limit": max(lim, 4)}
@@ -377,23 +458,82 @@ def gen_spec(rng, *, limits=(8, 16, 64, 65536), allow=None) -> dict:
         return {"k": "struct", "format": rng.choice(["!B", "!HB", "!IH", "<qB"])}
     if k == "ntstruct":
         return {"k": "ntstruct"}
-    if k == "b64":
+    if k in ("b64", "zlib", "bz2"):
         inner = rng.choice([{"k": "json", "use_lines": True, "limit": 65536}, {"k": "pickle"},
                             {"k": "line", "newline": "LF", "limit": 65536, "encoding": "utf-8"}])
-        return {"k": "b64", "inner": inner, "alphabet": rng.choice(["standard", "urlsafe"]),
-                "checksum": rng.random() < 0.5, "separator": rng.choice(["0d0a", "0a", "7c", "2323"]), "limit": 65536}
-    if k in ("zlib", "bz2"):
-        inner = rng.choice([{"k": "json", "use_lines": True, "limit": 65536}, {"k": "pickle"},
-                            {"k": "line", "newline": "LF", "limit": 65536, "encoding": "utf-8"}])
+        if rich and rng.random() < 0.3:
+            inner = {**inner, "debug": True}
+        if k == "b64":
+            return {"k": "b64", "inner": inner, "alphabet": rng.choice(["standard", "urlsafe"]),
+                    "checksum": rng.random() < 0.5, "separator": rng.choice(B64_SEPS if rich else B64_SEPS[:4]), "limit": 65536}
         return {"k": k, "inner": inner, "level": rng.choice([None, 1, 9])}
     if k == "autosep":
-        return {"k": "autosep", "sep": rng.choice(["0a", "0d0a", "7c7c", "616162", "2d2d3e", "00"]),
-                "limit": max(lim, 4), "check": True}
+        if not rich:
+            return {"k": "autosep", "sep": rng.choice(AUTOSEP_SEPS[:6]), "limit": max(lim, 4), "check": True}
+        spec = {"k": "autosep", "sep": rng.choice(AUTOSEP_SEPS), "limit": max(lim, 6), "check": True}
+        if rng.random() < 0.4:
+            spec["hold"] = rng.choice(["arg", "text"])
+        return spec
     if k == "fixed":
-        return {"k": "fixed", "size": rng.choice([1, 2, 5, 9])}
-    if k in ("filetoy", "filepeek"):
-        return {"k": k, "limit": max(lim, 32)}
-    if k == "stapledbuf":
-        a = gen_spec(rng, limits=limits, allow=["line", "autosep", "fixed"])
-        return {"k": "stapledbuf", "sent": a, "received": a}
+        spec = {"k": "fixed", "size": rng.choice([1, 2, 5, 9])}
+        if rich and rng.random() < 0.6:
+            spec["hold"] = rng.choice(["arg", "arg", "text"])
+        return spec
+    if k in FILE_TOYS:
+        spec = {"k": k, "limit": max(lim, 32)}
+        if rich and (e := rng.choice(EXPECTED_KEYS)) != "toy":
+            spec["expected"] = e
+        return spec
+    if k in ("stapledbuf", "stapled"):
+        # composite: a sending half and a receiving half (same configuration; built as two objects)
+        sub = ["line", "autosep", "fixed"] if k == "stapledbuf" else ["line", "json", "jsonraw", "autosep", "fixed", "filetoy"]
+        a = gen_spec(rng, limits=limits, allow=sub, rich=rich)
+        return {"k": k, "sent": a, "received": a}
     raise ValueError(k)
+
+
+# ------------------------------------------------------------------------------------------------
+# malformed frames, by construction
+# ------------------------------------------------------------------------------------------------
+
+def bad_frame(rng, spec: dict, extreme: bool = False) -> bytes | None:
+    """a WELL-DELIMITED frame of the receive side of `spec` whose payload is undecodable: frame-by-frame decoding gives
+    exactly one parse error for exactly these bytes, whatever follows (None: the format has no such frame).
+    extreme=True (JSON only): structurally extreme documents — nesting deeper than the interpreter's recursion limit, an
+    integer literal beyond the int/str conversion limit (10 KB frames: only for limits that hold them)."""
+    r = recv_spec(spec)
+    k = r["k"]
+    sep = separator(spec)
+    if k == "line":
+        body = bytes(rng.choice(b"abxyz \t") for _ in range(rng.randint(0, 5)))
+        i = rng.randint(0, len(body))
+        return body[:i] + rng.choice([b"\xff", b"\xc3", b"\xe2\x82"]) + body[i:] + sep
+    if k == "json":
+        if extreme and (r.get("limit") or 0) >= 16384:
+            d = rng.choice([2500, 5000])
+            doc = rng.choice([b"[" * d + b"]" * d, b'{"a":' * d + b"1" + b"}" * d, b"[" + b"9" * rng.choice([4301, 5000]) + b"]"])
+            return doc + (sep or b"")
+        if r.get("use_lines", True):
+            return rng.choice([b'{"a": tru', b'[1,,2]', b'"\xff"', b"{]}", b"nul", b'{"a":"b",}', b"[01]"]) + sep
+        return rng.choice([b'{"a":}', b"[1,,2]", b"{]}", b'["a" "b"]', b"[tru]", b'{"a" 1}', b"[01]", b'{"k":[}', b'"\xff"', b"{,}"])
+    if k == "ntstruct":
+        return _struct.pack("!iH6s", rng.randint(-5, 5), rng.randint(0, 9), rng.choice([b"\xff\xfeab", b"ab\xc3", b"\xe2\x82"]))
+    if k == "b64":
+        # not a base64 token (incorrect padding), whatever the alphabet / checksum
+        return rng.choice([b"QUJ", b"Q", b"QUJDR", b"QUJDRA="]) + sep
+    if k in ("zlib", "bz2"):
+        import bz2
+        import zlib
+        inner = r["inner"]["k"]
+        payload = {"json": b"{\"a\": tru", "pickle": b"\x80\x04nonsense", "line": b"\xff\xfe\n"}.get(inner)
+        if payload is None:
+            return None
+        return zlib.compress(payload, 1) if k == "zlib" else bz2.compress(payload, 1)
+    if k == "autosep":
+        fill = next(bytes([c]) for c in b"bcxyz" if c not in sep)
+        return b"\xff" + fill * rng.randint(0, 4) + sep
+    if k == "fixed":
+        return b"\xff" + bytes(rng.randrange(1, 255) for _ in range(r["size"] - 1))
+    if k in FILE_TOYS:
+        return bytes([rng.randint(201, 255)])
+    return None
